@@ -550,6 +550,13 @@ fn exec_conv(o: &mut Out, sty: &str, dty: &str, how: &str, bits: &[u64]) {
     o.emit(ev);
 }
 
+/// `from_slice`, except that a Vec3A gets a poisoned hidden lane (NaN, the infinities, a huge negative ... in rotation): the recorded
+/// operands of every polynomial and relational event then also decide that the padding lane takes no part
+trait FromSl<S>: Sized { fn fs(l: &[S]) -> Self; }
+macro_rules! impl_fromsl { ($($V:ident, $S:ident);+ $(;)?) => {$( impl FromSl<$S> for glam::$V { fn fs(l: &[$S]) -> Self { glam::$V::from_slice(l) } } )+}; }
+impl_fromsl!(Vec2, f32; Vec3, f32; Vec4, f32; DVec2, f64; DVec3, f64; DVec4, f64);
+impl FromSl<f32> for glam::Vec3A { fn fs(l: &[f32]) -> Self { glam::Vec3A::from_vec4(glam::Vec4::new(l[0], l[1], l[2], hx::fvec::poison())) } }
+
 // ------------------------------------------------------------------------------------------ polynomial accuracy (Trace_Poly)
 /// finite value with a moderate exponent (no overflow / underflow in products of four) and a random significand
 fn rnd_mod(r: &mut Rng, is32: bool) -> u64 {
@@ -567,6 +574,19 @@ macro_rules! poly_family {
         let w = |x: $S| -> Value { wf(x.to_bits() as u64, is32) };
         let wv = |v: &[$S]| -> Value { Value::Array(v.iter().map(|x| w(*x)).collect()) };
         let wm = |v: &[$S], n: usize| -> Value { Value::Array(v.chunks(n).map(|c| wv(c)).collect()) };
+        // the inverse of the same matrix scaled down / up by an exact power of two (determinants around 2^-28 and 2^28: an absolute
+        // singularity threshold, or a determinant taken in the wrong precision, shows up there and nowhere near unit scale)
+        macro_rules! inv_scaled {
+            ($M:ident, $flat:ident, $n:expr, $k:expr) => {{
+                for kk in [-($k as i32), $k as i32] {
+                    let sc: Vec<$S> = $flat.iter().map(|x| *x * (2.0 as $S).powi(kk)).collect();
+                    let m = $M::from_cols_slice(&sc);
+                    if m.determinant() != 0.0 && m.inverse().is_finite() {
+                        $o.emit(json!({"k": "poly", "op": "inverse", "f": $fm, "ty": stringify!($M), "sp": if kk < 0 { "scaled down" } else { "scaled up" }, "m": wm(&sc, $n), "got": wm(&m.inverse().to_cols_array(), $n)}));
+                    }
+                }
+            }};
+        }
         // ---- vectors
         let (a2, b2, a3, b3, a4, b4) = (rv($r, 2), rv($r, 2), rv($r, 3), rv($r, 3), rv($r, 4), rv($r, 4));
         $o.emit(json!({"k": "poly", "op": "dot", "f": $fm, "ty": stringify!($V2), "a": wv(&a2), "b": wv(&b2), "got": w($V2::from_slice(&a2).dot($V2::from_slice(&b2)))}));
@@ -587,7 +607,7 @@ macro_rules! poly_family {
             };
             macro_rules! vec_polys {
                 ($V:ident, $a:ident, $b:ident) => {{
-                    let (va, vb) = ($V::from_slice(&$a), $V::from_slice(&$b));
+                    let (va, vb) = (<$V as FromSl<_>>::fs(&$a), <$V as FromSl<_>>::fs(&$b));
                     let ty = stringify!($V);
                     $o.emit(json!({"k": "poly", "op": "lerp", "f": $fm, "ty": ty, "a": wv(&$a), "b": wv(&$b), "t": w(tt), "got": wv(&va.lerp(vb, tt).to_array())}));
                     // the cancelling configuration: a factor just below / above 1 and a target far smaller than the start, so that the
@@ -596,7 +616,7 @@ macro_rules! poly_family {
                         let kk = 3 + $r.below(if is32 { 16 } else { 40 }) as i32;
                         let t1: $S = 1.0 - (1.0 + ($r.below(1 << 20) as $S) / 1048576.0) * (2.0 as $S).powi(-kk) * (if $r.below(4) == 0 { -1.0 } else { 1.0 });
                         let small: Vec<$S> = $b.iter().map(|x| *x * (2.0 as $S).powi(-kk - 2)).collect();
-                        let vs = $V::from_slice(&small);
+                        let vs = <$V as FromSl<_>>::fs(&small);
                         $o.emit(json!({"k": "poly", "op": "lerp", "f": $fm, "ty": ty, "sp": "cancelling", "a": wv(&$a), "b": wv(&small), "t": w(t1), "got": wv(&va.lerp(vs, t1).to_array())}));
                     }
                     $o.emit(json!({"k": "poly", "op": "midpoint", "f": $fm, "ty": ty, "a": wv(&$a), "b": wv(&$b), "got": wv(&va.midpoint(vb).to_array())}));
@@ -616,8 +636,8 @@ macro_rules! poly_family {
             $( vec_polys!($V3x, a3, b3); )*
         }
         $(
-            $o.emit(json!({"k": "poly", "op": "dot", "f": $fm, "ty": stringify!($V3x), "a": wv(&a3), "b": wv(&b3), "got": w($V3x::from_slice(&a3).dot($V3x::from_slice(&b3)))}));
-            $o.emit(json!({"k": "poly", "op": "cross", "f": $fm, "ty": stringify!($V3x), "a": wv(&a3), "b": wv(&b3), "got": wv(&$V3x::from_slice(&a3).cross($V3x::from_slice(&b3)).to_array())}));
+            $o.emit(json!({"k": "poly", "op": "dot", "f": $fm, "ty": stringify!($V3x), "a": wv(&a3), "b": wv(&b3), "got": w(<$V3x as FromSl<_>>::fs(&a3).dot(<$V3x as FromSl<_>>::fs(&b3)))}));
+            $o.emit(json!({"k": "poly", "op": "cross", "f": $fm, "ty": stringify!($V3x), "a": wv(&a3), "b": wv(&b3), "got": wv(&<$V3x as FromSl<_>>::fs(&a3).cross(<$V3x as FromSl<_>>::fs(&b3)).to_array())}));
         )*
         // ---- square matrices
         let (m2a, m2b, m3a, m3b, m4a, m4b) = (rv($r, 4), rv($r, 4), rv($r, 9), rv($r, 9), rv($r, 16), rv($r, 16));
@@ -628,6 +648,7 @@ macro_rules! poly_family {
             $o.emit(json!({"k": "poly", "op": "mul_vec", "f": $fm, "ty": stringify!($M2), "m": wm(&m2a, 2), "v": wv(&a2), "got": wv(&(a * $V2::from_slice(&a2)).to_array())}));
             $o.emit(json!({"k": "poly", "op": "det", "f": $fm, "ty": stringify!($M2), "m": wm(&m2a, 2), "got": w(a.determinant())}));
             if a.determinant() != 0.0 && a.inverse().is_finite() { $o.emit(json!({"k": "poly", "op": "inverse", "f": $fm, "ty": stringify!($M2), "m": wm(&m2a, 2), "got": wm(&a.inverse().to_cols_array(), 2)})); }
+            inv_scaled!($M2, m2a, 2, 14);
         }
         {
             let (a, b) = ($M3::from_cols_slice(&m3a), $M3::from_cols_slice(&m3b));
@@ -635,6 +656,7 @@ macro_rules! poly_family {
             $o.emit(json!({"k": "poly", "op": "mul_vec", "f": $fm, "ty": stringify!($M3), "m": wm(&m3a, 3), "v": wv(&a3), "got": wv(&(a * $V3::from_slice(&a3)).to_array())}));
             $o.emit(json!({"k": "poly", "op": "det", "f": $fm, "ty": stringify!($M3), "m": wm(&m3a, 3), "got": w(a.determinant())}));
             if a.determinant() != 0.0 && a.inverse().is_finite() { $o.emit(json!({"k": "poly", "op": "inverse", "f": $fm, "ty": stringify!($M3), "m": wm(&m3a, 3), "got": wm(&a.inverse().to_cols_array(), 3)})); }
+            inv_scaled!($M3, m3a, 3, 9);
             // a nearly singular matrix: the third column is almost a combination of the first two
             {
                 let eps3: $S = [1e-2, 1e-3, 1e-4][$r.below(3) as usize];
@@ -655,10 +677,11 @@ macro_rules! poly_family {
             {
                 let (a, b) = ($M3x::from_cols_slice(&m3a), $M3x::from_cols_slice(&m3b));
                 $o.emit(json!({"k": "poly", "op": "mat_mul", "f": $fm, "ty": stringify!($M3x), "a": wm(&m3a, 3), "b": wm(&m3b, 3), "got": wm(&(a * b).to_cols_array(), 3)}));
-                $o.emit(json!({"k": "poly", "op": "mul_vec", "f": $fm, "ty": stringify!($M3x), "sp": "Vec3A", "m": wm(&m3a, 3), "v": wv(&a3), "got": wv(&(a * $V3x::from_slice(&a3)).to_array())}));
+                $o.emit(json!({"k": "poly", "op": "mul_vec", "f": $fm, "ty": stringify!($M3x), "sp": "Vec3A", "m": wm(&m3a, 3), "v": wv(&a3), "got": wv(&(a * <$V3x as FromSl<_>>::fs(&a3)).to_array())}));
                 $o.emit(json!({"k": "poly", "op": "mul_vec", "f": $fm, "ty": stringify!($M3x), "sp": "Vec3", "m": wm(&m3a, 3), "v": wv(&a3), "got": wv(&(a * $V3::from_slice(&a3)).to_array())}));
                 $o.emit(json!({"k": "poly", "op": "det", "f": $fm, "ty": stringify!($M3x), "m": wm(&m3a, 3), "got": w(a.determinant())}));
                 if a.determinant() != 0.0 && a.inverse().is_finite() { $o.emit(json!({"k": "poly", "op": "inverse", "f": $fm, "ty": stringify!($M3x), "m": wm(&m3a, 3), "got": wm(&a.inverse().to_cols_array(), 3)})); }
+                inv_scaled!($M3x, m3a, 3, 9);
             }
         )*
         {
@@ -667,6 +690,7 @@ macro_rules! poly_family {
             $o.emit(json!({"k": "poly", "op": "mul_vec", "f": $fm, "ty": stringify!($M4), "m": wm(&m4a, 4), "v": wv(&a4), "got": wv(&(a * $V4::from_slice(&a4)).to_array())}));
             $o.emit(json!({"k": "poly", "op": "det", "f": $fm, "ty": stringify!($M4), "m": wm(&m4a, 4), "got": w(a.determinant())}));
             if a.determinant() != 0.0 && a.inverse().is_finite() { $o.emit(json!({"k": "poly", "op": "inverse", "f": $fm, "ty": stringify!($M4), "m": wm(&m4a, 4), "got": wm(&a.inverse().to_cols_array(), 4)})); }
+            inv_scaled!($M4, m4a, 4, 7);
             // affine 4x4: last row (0, 0, 0, 1)
             let mut af = m4a.clone();
             af[3] = 0.0; af[7] = 0.0; af[11] = 0.0; af[15] = 1.0;
@@ -679,9 +703,9 @@ macro_rules! poly_family {
                            "got": wv(&m.transform_vector3($V3::from_slice(&a3)).to_array())}));
             $(
                 $o.emit(json!({"k": "poly", "op": "affine_point", "f": $fm, "ty": stringify!($M4), "sp": "transform_point3a", "m": wm(&lin, 3), "t": wv(&t), "v": wv(&a3),
-                               "got": wv(&m.transform_point3a($V3x::from_slice(&a3)).to_array())}));
+                               "got": wv(&m.transform_point3a(<$V3x as FromSl<_>>::fs(&a3)).to_array())}));
                 $o.emit(json!({"k": "poly", "op": "mul_vec", "f": $fm, "ty": stringify!($M4), "sp": "transform_vector3a", "m": wm(&lin, 3), "v": wv(&a3),
-                               "got": wv(&m.transform_vector3a($V3x::from_slice(&a3)).to_array())}));
+                               "got": wv(&m.transform_vector3a(<$V3x as FromSl<_>>::fs(&a3)).to_array())}));
             )*
             // ---- affine types
             let a3f: Vec<$S> = lin.iter().chain(t.iter()).copied().collect();
@@ -722,7 +746,7 @@ macro_rules! poly_family {
                 $o.emit(json!({"k": "poly", "op": "quat_mul", "f": $fm, "ty": stringify!($Q), "sp": "mul_quat", "a": wv(&la), "b": wv(&lb), "got": wv(&qa.mul_quat(qb).to_array())}));
                 $o.emit(json!({"k": "poly", "op": "quat_rot", "f": $fm, "ty": stringify!($Q), "sp": "q * Vec3", "a": wv(&la), "v": wv(&a3), "got": wv(&(qa * $V3::from_slice(&a3)).to_array())}));
                 $(
-                    $o.emit(json!({"k": "poly", "op": "quat_rot", "f": $fm, "ty": stringify!($Q), "sp": "q * Vec3A", "a": wv(&la), "v": wv(&a3), "got": wv(&(qa * $V3x::from_slice(&a3)).to_array())}));
+                    $o.emit(json!({"k": "poly", "op": "quat_rot", "f": $fm, "ty": stringify!($Q), "sp": "q * Vec3A", "a": wv(&la), "v": wv(&a3), "got": wv(&(qa * <$V3x as FromSl<_>>::fs(&a3)).to_array())}));
                 )*
             }
         }
@@ -851,8 +875,8 @@ macro_rules! rel_vec {
         let w = |x: $S| -> Value { wf(x.to_bits() as u64, is32) };
         let wv = |v: &$V| -> Value { Value::Array(v.to_array().iter().map(|x| w(*x)).collect()) };
         let ty = stringify!($V);
-        let rv = |r: &mut Rng| -> $V { let l: Vec<$S> = (0..$n).map(|_| <$S>::from_bits(rnd_mod(r, is32) as _)).collect(); $V::from_slice(&l) };
-        let ro = |r: &mut Rng| -> $V { let l: Vec<$S> = (0..$n).map(|_| (unit_f64(r) * 4.0 - 2.0) as $S).collect(); $V::from_slice(&l) };
+        let rv = |r: &mut Rng| -> $V { let l: Vec<$S> = (0..$n).map(|_| <$S>::from_bits(rnd_mod(r, is32) as _)).collect(); <$V as FromSl<_>>::fs(&l) };
+        let ro = |r: &mut Rng| -> $V { let l: Vec<$S> = (0..$n).map(|_| (unit_f64(r) * 4.0 - 2.0) as $S).collect(); <$V as FromSl<_>>::fs(&l) };
         // ---- normalize family: arbitrary magnitudes, and vectors within 1e-4 of unit length
         let mut vs = vec![rv($r)];
         { let u = ro($r); let l = u.length(); if l > 0.1 { vs.push(u / l * (1.0 + ((unit_f64($r) - 0.5) * 2e-4) as $S)); } }
